@@ -55,6 +55,19 @@ def has_f32(v):
 def documents(rng, n, depth=4, deep_every=25, f32=False):
     """(source format, value, text): values each representable in their source format."""
     out = []
+    # every run starts with the boundary tables: all integer width boundaries and the float pool, as one document per format
+    for fmt in FORMATS:
+        ints = [x for x in gen.INT_POOL if fmt != "toml" or -(1 << 63) <= x < (1 << 63)]
+        for v in ({"ints": ints, "floats": list(gen.FLOAT_POOL)}, {"edge": (1 << 63), "id": (1 << 64) - 1, "ok": (1 << 63) - 1} if fmt != "toml" else {"ok": (1 << 63) - 1}):
+            try:
+                if not gen.representable(v, fmt):
+                    continue
+                t = gen.spell(v, fmt, rng)
+                back = gen.read_documents(t, fmt)
+                if len(back) == 1 and gen.values_equal(back[0], v):
+                    out.append((fmt, v, t))
+            except Exception:
+                continue
     tries = 0
     while len(out) < n and tries < n * 5:
         tries += 1
